@@ -14,7 +14,22 @@ type Once = sched.Once
 
 // Types without scheduling semantics are passed through.
 type Pool = sync.Pool
-type Map = sync.Map
+
+// Map is sync.Map with a scheduling point before every operation, so that
+// Load-then-Store sequences are interleaved by the explorer.
+type Map struct{ m sync.Map }
+
+func (x *Map) Load(k any) (any, bool)           { sched.Yield(); return x.m.Load(k) }
+func (x *Map) Store(k, v any)                   { sched.Yield(); x.m.Store(k, v) }
+func (x *Map) LoadOrStore(k, v any) (any, bool) { sched.Yield(); return x.m.LoadOrStore(k, v) }
+func (x *Map) LoadAndDelete(k any) (any, bool)  { sched.Yield(); return x.m.LoadAndDelete(k) }
+func (x *Map) Delete(k any)                     { sched.Yield(); x.m.Delete(k) }
+func (x *Map) Swap(k, v any) (any, bool)        { sched.Yield(); return x.m.Swap(k, v) }
+func (x *Map) CompareAndSwap(k, o, n any) bool  { sched.Yield(); return x.m.CompareAndSwap(k, o, n) }
+func (x *Map) CompareAndDelete(k, o any) bool   { sched.Yield(); return x.m.CompareAndDelete(k, o) }
+func (x *Map) Range(f func(k, v any) bool)      { sched.Yield(); x.m.Range(f) }
+func (x *Map) Clear()                           { sched.Yield(); x.m.Clear() }
+
 type Locker = sync.Locker
 type Cond = sync.Cond
 
